@@ -143,26 +143,26 @@ func (s *Store) SetUserinfoFromScopes(_ context.Context, userinfo *oidc.UserInfo
 	return s.setUserinfo(userinfo, userID, clientID, scopes)
 }
 
-func (s *Store) SetUserinfoFromToken(_ context.Context, userinfo *oidc.UserInfo, tokenID, subject, origin string) error {
+func (s *Store) SetUserinfoFromToken(ctx context.Context, userinfo *oidc.UserInfo, tokenID, subject, origin string) error {
 	if err := s.enter("SetUserinfoFromToken", s.tokLabel(tokenID), subject); err != nil {
 		return err
 	}
 	s.mu.Lock()
 	defer s.mu.Unlock()
-	t, err := s.liveToken(tokenID)
+	t, err := s.liveToken(s.tenant(ctx), tokenID)
 	if err != nil {
 		return err
 	}
 	return s.setUserinfo(userinfo, t.Subject, t.ClientID, t.Scopes)
 }
 
-func (s *Store) SetIntrospectionFromToken(_ context.Context, resp *oidc.IntrospectionResponse, tokenID, subject, clientID string) error {
+func (s *Store) SetIntrospectionFromToken(ctx context.Context, resp *oidc.IntrospectionResponse, tokenID, subject, clientID string) error {
 	if err := s.enter("SetIntrospectionFromToken", s.tokLabel(tokenID), subject, clientID); err != nil {
 		return err
 	}
 	s.mu.Lock()
 	defer s.mu.Unlock()
-	t, err := s.liveToken(tokenID)
+	t, err := s.liveToken(s.tenant(ctx), tokenID)
 	if err != nil {
 		return err
 	}
